@@ -299,7 +299,9 @@ FILL = {
     ("comment", "plain"): ["<!-- a comment -->", "<!---->", "<!-- a\r\n\n b\r\rc -->"],
     ("comment", "dashes"): ["<!-- a - b -->", "<!-- -x- -->"],
     ("comment", "markup"): ["<!-- <b tal:content=\"x\">not a statement</b> &amp; -->"],
-    ("comment", "bang"): ["<!-- ! not dropped -->"],
+    # ('<!--?' marks a comment that is not interpolated: the marker goes, the text stays -- unless comment interpolation is
+    # switched off by option, then the comment is written as it stands)
+    ("comment", "bang"): ["<!-- ! not dropped -->", "<!--?php x ?-->", "<!--? ${not.evaluated} -->"],
     ("cdata", "markup"): ["<![CDATA[ <b>&amp; ]] > ]]>", "<![CDATA[]]>"],
     ("pi", "php"): ["<?php echo 1 ?>", "<?target?>", "<?xml-stylesheet href=\"a.xsl\" >x?>", "<?python-version 3.11?>", "<?php // c\n  echo 100 % 3;\n?>",
                     "<?xml-foo > bar?>"],
@@ -420,6 +422,12 @@ def _docs_chunk(recs, fills, seed):
             src = ('<?xml version="1.0" encoding="utf-8"?>\n' + body) if rec["xml"] else body
             want = src if rec["xml"] else norm(src)
             opts = rnd.choice(OPTSETS)
+            if opts.get("enable_comment_interpolation", True):
+                want = want.replace("<!--?", "<!--")
+            lead = ""
+            if rnd.random() < 0.15 and not rec["xml"]:
+                # a str document that starts with U+FEFF: an ordinary character of the text (only BYTE input has marks)
+                lead = "\ufeff"
             # one template object that is given document after document (write()): each is reproduced like a first one
             # (XML and HTML documents alternate at random, so the mode is decided anew for each)
             n += 1
@@ -429,7 +437,7 @@ def _docs_chunk(recs, fills, seed):
                 else:
                     reuse[0].write(src)
                 got2 = reuse[0]()
-                if got2 != want:
+                if got2 != want.replace("<!--?", "<!--"):        # (default options: the marker goes)
                     viol.append(("a template object given a new document with write() does not reproduce it (xml=%s, the document before: "
                                  "xml=%s)\n  source: %r\n  output: %r" % (rec["xml"], reuse[1], src, got2), dict(kind="verbatim-write", source=src, output=got2)))
                 reuse[1] = rec["xml"]
@@ -438,7 +446,16 @@ def _docs_chunk(recs, fills, seed):
             for as_bytes in (False, True):
                 n += 1
                 try:
-                    got = PageTemplate(src.encode("utf-8") if as_bytes else src, **opts)()
+                    if lead and not as_bytes:
+                        got = PageTemplate(lead + src, **opts)()
+                        if got == lead + want:
+                            got = want
+                        # the tokens of the text as given concatenate back to it
+                        if "".join(str(t) for t in iter_xml(lead + src)) != lead + src:
+                            viol.append(("token stream of %r does not concatenate to the input" % (lead + src),
+                                         dict(kind="verbatim", source=lead + src)))
+                    else:
+                        got = PageTemplate(src.encode("utf-8") if as_bytes else src, **opts)()
                 except Exception as e:
                     # a statement-free document that is rejected as a template error is outside the property
                     if isinstance(e, TemplateError):
